@@ -15,7 +15,7 @@ use crate::engine::*;
 use crate::models::*;
 use crate::{vensure, vfail};
 
-pub const RULE: &str = "histories of datagrams sent from 6 loopback client sockets (127.0.0.1 twice, 127.0.0.2, 127.0.0.3, ::1 twice) to running trackers (mio and io_uring backends, 1 and 3 socket workers, max_scrape_torrents in {3, 70}, plus one tracker with max_connection_age = 0 so every id is stale): well-formed connect / announce (4 events, port 0 allowed) / scrape (1..408 hashes, repeated, unknown) carrying an id that is own / issued to another socket on the same IP (valid) / issued to another IP / bit-flipped / random / zero, structure-aware mutations (truncate, extend, bit flips, action/event out of range, protocol id off by one, ragged hash list) and random bytes. Every sent datagram gets a unique transaction id; after each one the same socket sends a fence (connect) and all sockets are drained. Oracle per datagram: replies attributed by transaction id: at most one, only on the sending socket, none for unparseable input or an id not valid for the source IP, exactly one of the right kind (connect 16 bytes <= request; announce of the sender's family with counts/peers equal to reference model S built from the valid announces; scrape with exactly min(n, max) entries in request order; error only with a valid id) for well-formed requests. non-trivial = foreign/forged/stale id, a sendable parse error, a mutated message; distinct = distinct serialised history";
+pub const RULE: &str = "histories of datagrams sent from 6 loopback client sockets (127.0.0.1 twice, 127.0.0.2, 127.0.0.3, ::1 twice) to running trackers (mio and io_uring backends, 1 and 3 socket workers, max_scrape_torrents in {3, 70}, plus one tracker with max_connection_age = 0 so every id is stale): well-formed connect / announce (4 events, port 0 allowed) / scrape (1..408 hashes, repeated, unknown) carrying an id that is own / issued to another socket on the same IP (valid) / issued to another IP / bit-flipped / random / zero, structure-aware mutations (truncate, extend, bit flips, action/event out of range, protocol id off by one, ragged hash list) and random bytes. Every sent datagram gets a unique transaction id; after each one the same socket sends a fence (connect) and all sockets are drained. Oracle per datagram: replies attributed by transaction id: at most one, only on the sending socket, none for unparseable input or an id not valid for the source IP, exactly one of the right kind (connect 16 bytes <= request; announce of the sender's family with counts/peers equal to reference model S built from the valid announces; scrape with exactly min(n, max) entries in request order; error only with a valid id) for well-formed requests. non-trivial = foreign/forged/stale id, a sendable parse error, a mutated message; distinct = distinct serialised history; two (quick) / five (thorough) of the trackers run with an access list file (deny mode listing torrent index 3 of every case, allow mode listing indices 0-2, 400000 cases each): an announce for a refused torrent - incl. every bit-flipped hash in allow mode - gets exactly one error reply with a valid id and silence without, and creates no state";
 
 const IPS: [&str; 6] = ["127.0.0.1", "127.0.0.1", "127.0.0.2", "127.0.0.3", "::1", "::1"];
 
@@ -25,6 +25,10 @@ pub struct TrackerSpec {
     pub workers: u8,
     pub max_scrape: u8,
     pub stale_ids: bool,
+    /// access list: 0 off, 1 deny mode listing torrent index 3 of every case, 2 allow mode
+    /// listing torrent indices 0..=2 of every case (index 3 and every mutated hash are refused)
+    #[serde(default)]
+    pub access: u8,
 }
 
 #[derive(Debug, Clone, Serialize, Deserialize)]
@@ -73,6 +77,54 @@ pub struct Case {
 
 struct Running {
     tracker: Tracker,
+    _list_file: Option<tempfile::NamedTempFile>,
+}
+
+/// case ids whose torrents are written into the access list files
+const LISTED_CASES: u32 = 400_000;
+
+/// Is `h` one of the hashes written into the list file of an `access` tracker? (structural: the
+/// file holds torrent(cid, t) for cid in 1..=LISTED_CASES and the mode's torrent indices)
+fn listed(access: u8, h: &Hash20) -> bool {
+    let cid = u32::from_be_bytes([h[1], h[2], h[3], h[4]]);
+    let t = h[5];
+    let in_mode = match access {
+        1 => t == 3,
+        2 => t <= 2,
+        _ => false,
+    };
+    in_mode && cid >= 1 && cid <= LISTED_CASES && *h == torrent(cid, t)
+}
+
+fn refused(access: u8, h: &Hash20) -> bool {
+    match access {
+        1 => listed(1, h),
+        2 => !listed(2, h),
+        _ => false,
+    }
+}
+
+fn write_list_file(access: u8) -> Result<tempfile::NamedTempFile, String> {
+    use std::io::Write;
+    let mut f = tempfile::Builder::new().prefix("vcheck-c06-list-").tempfile().map_err(|e| e.to_string())?;
+    {
+        let mut w = std::io::BufWriter::new(f.as_file_mut());
+        let ts: &[u8] = if access == 1 { &[3] } else { &[0, 1, 2] };
+        for cid in 1..=LISTED_CASES {
+            for t in ts {
+                let h = torrent(cid, *t);
+                let mut line = [0u8; 41];
+                for (i, b) in h.iter().enumerate() {
+                    line[2 * i] = b"0123456789abcdef"[(b >> 4) as usize];
+                    line[2 * i + 1] = b"0123456789abcdef"[(b & 15) as usize];
+                }
+                line[40] = b'\n';
+                w.write_all(&line).map_err(|e| e.to_string())?;
+            }
+        }
+        w.flush().map_err(|e| e.to_string())?;
+    }
+    Ok(f)
 }
 
 static TRACKERS: OnceLock<Mutex<BTreeMap<TrackerSpec, Result<Arc<Running>, String>>>> = OnceLock::new();
@@ -84,6 +136,8 @@ fn tracker_for(spec: TrackerSpec) -> Result<Arc<Running>, String> {
     let mut g = map.lock().unwrap();
     g.entry(spec)
         .or_insert_with(|| {
+            let list_file = if spec.access != 0 { Some(write_list_file(spec.access)?) } else { None };
+            let list_path = list_file.as_ref().map(|f| f.path().to_path_buf());
             start_udp(|port| {
                 let mut c = udp_config(port, SocketMode::Both, spec.uring, spec.workers as usize);
                 c.protocol.max_scrape_torrents = spec.max_scrape;
@@ -92,9 +146,13 @@ fn tracker_for(spec: TrackerSpec) -> Result<Arc<Running>, String> {
                 if spec.stale_ids {
                     c.cleaning.max_connection_age = 0;
                 }
+                if let Some(p) = &list_path {
+                    c.access_list.mode = if spec.access == 1 { aquatic_common::access_list::AccessListMode::Deny } else { aquatic_common::access_list::AccessListMode::Allow };
+                    c.access_list.path = p.clone();
+                }
                 c
             })
-            .map(|tracker| Arc::new(Running { tracker }))
+            .map(|tracker| Arc::new(Running { tracker, _list_file: list_file }))
         })
         .clone()
 }
@@ -117,6 +175,8 @@ enum Expect {
     None(&'static str),
     /// at most one, and only of this class
     AtMostOneError,
+    /// exactly one error reply (announce of a torrent the access list refuses, valid id)
+    OneError,
     AtMostOneConnect,
     Connect,
     Announce { seeders: usize, leechers: usize, others: std::collections::BTreeSet<PKey>, requester: PKey, limit: usize, v4: bool },
@@ -274,7 +334,10 @@ pub fn prop(case: &Case) -> CaseResult {
                 }
             }
             Ok(UReq::Announce { info_hash, left, event, numwant, port: p, peer_id, .. }) => {
-                if wire_cid_valid {
+                if wire_cid_valid && refused(case.tracker.access, info_hash) {
+                    // refused by the access list: an error reply, no state
+                    Expect::OneError
+                } else if wire_cid_valid {
                     let exp = model.announce(*info_hash, c.canonical_ip, *p, *event == 3, *left == 0, u64::MAX, *peer_id);
                     let limit = if *numwant <= 0 { 30 } else { (*numwant as usize).min(30) };
                     Expect::Announce {
@@ -391,6 +454,11 @@ pub fn prop(case: &Case) -> CaseResult {
                 out.label("error-reply");
             }
             (Expect::AtMostOneError, Some(other)) => vfail!("wrong-reply-kind", "step {step}: sendable parse error answered with {:?}", other),
+            (Expect::OneError, Some(Ok(URsp::Error { .. }))) => {
+                out.label("access-list-refusal");
+                out.nontrivial = true;
+            }
+            (Expect::OneError, other) => vfail!("wrong-reply-kind", "step {step}: announce with a valid id for a torrent the access list refuses ({:?}) must get exactly one error reply, got {:?}", dg, other),
             (Expect::AtMostOneConnect, Some(Ok(URsp::Connect { .. }))) => {}
             (Expect::AtMostOneConnect, Some(other)) => vfail!("wrong-reply-kind", "step {step}: over-long connect answered with {:?}", other),
             (Expect::Connect, Some(Ok(URsp::Connect { cid, .. }))) => {
@@ -521,18 +589,23 @@ fn case_strategy(specs: Vec<TrackerSpec>, max_len: usize) -> impl Strategy<Value
 
 pub fn specs(tier: Tier) -> Vec<TrackerSpec> {
     let mut v = vec![
-        TrackerSpec { uring: false, workers: 1, max_scrape: 70, stale_ids: false },
-        TrackerSpec { uring: false, workers: 3, max_scrape: 3, stale_ids: false },
-        TrackerSpec { uring: true, workers: 1, max_scrape: 3, stale_ids: false },
-        TrackerSpec { uring: true, workers: 3, max_scrape: 70, stale_ids: false },
-        TrackerSpec { uring: false, workers: 1, max_scrape: 70, stale_ids: true },
+        TrackerSpec { uring: false, workers: 1, max_scrape: 70, stale_ids: false, access: 0 },
+        TrackerSpec { uring: false, workers: 3, max_scrape: 3, stale_ids: false, access: 0 },
+        TrackerSpec { uring: true, workers: 1, max_scrape: 3, stale_ids: false, access: 0 },
+        TrackerSpec { uring: true, workers: 3, max_scrape: 70, stale_ids: false, access: 0 },
+        TrackerSpec { uring: false, workers: 1, max_scrape: 70, stale_ids: true, access: 0 },
+        TrackerSpec { uring: false, workers: 3, max_scrape: 70, stale_ids: false, access: 1 },
+        TrackerSpec { uring: true, workers: 1, max_scrape: 70, stale_ids: false, access: 2 },
     ];
     if tier == Tier::Thorough {
         v.extend([
-            TrackerSpec { uring: true, workers: 1, max_scrape: 70, stale_ids: true },
-            TrackerSpec { uring: false, workers: 3, max_scrape: 0, stale_ids: false },
-            TrackerSpec { uring: true, workers: 3, max_scrape: 1, stale_ids: false },
-            TrackerSpec { uring: false, workers: 1, max_scrape: 255, stale_ids: false },
+            TrackerSpec { uring: true, workers: 1, max_scrape: 70, stale_ids: true, access: 0 },
+            TrackerSpec { uring: false, workers: 3, max_scrape: 0, stale_ids: false, access: 0 },
+            TrackerSpec { uring: true, workers: 3, max_scrape: 1, stale_ids: false, access: 0 },
+            TrackerSpec { uring: false, workers: 1, max_scrape: 255, stale_ids: false, access: 0 },
+            TrackerSpec { uring: true, workers: 3, max_scrape: 70, stale_ids: false, access: 1 },
+            TrackerSpec { uring: false, workers: 1, max_scrape: 3, stale_ids: false, access: 2 },
+            TrackerSpec { uring: false, workers: 1, max_scrape: 70, stale_ids: true, access: 2 },
         ]);
     }
     v
@@ -550,7 +623,7 @@ pub fn run(ctx: &mut Ctx) {
     ctx.run_prop_threads("datagrams", n, threads, move || case_strategy(sp.clone(), tier.pick(24, 60)), prop);
     // source port 0 through a raw socket, with controls from ordinary ports
     let mut raw = Vec::new();
-    for spec in specs(tier).into_iter().filter(|s| !s.stale_ids) {
+    for spec in specs(tier).into_iter().filter(|s| !s.stale_ids && s.access == 0) {
         for announce in [false, true] {
             for src_port in [0u16, 0, 0, 40_001, 40_002] {
                 raw.push(RawCase { tracker: spec, src_port, announce });
@@ -561,7 +634,7 @@ pub fn run(ctx: &mut Ctx) {
     ctx.threads = 1; // the sniffer sees all loopback UDP traffic; keep it quiet
     ctx.run_enum("raw-port-0", raw, false, prop_raw);
     ctx.threads = saved;
-    for l in ["foreign-ip-id", "forged-id", "mutated", "sendable-parse-error", "stale-ids", "uring", "mio", "silence", "announce", "scrape", "error-reply"] {
+    for l in ["foreign-ip-id", "forged-id", "mutated", "sendable-parse-error", "stale-ids", "uring", "mio", "silence", "announce", "scrape", "error-reply", "access-list-refusal"] {
         ctx.require_label("datagrams", l, 0.05);
     }
 }
